@@ -28,7 +28,11 @@ RULE = ("random construction programs over <= 8 blocks (1..3 Inputs, 1..5 CBlock
         "after a failed finalize; 35 % of the programs contain one class of invalid use (unknown name, "
         "foreign block, UNDEF, bad automatic name, inverter of an unknown block, empty name, duplicate / "
         "reserved / empty block name, connect twice / nothing / '_' / sequence as positional input, wrong "
-        "destination kind by object or by name, wrong or missing inputs of Not / Override). A case is "
+        "destination kind by object or by name, wrong or missing inputs of Not / Override); custom blocks "
+        "calling check_signature() with expectations None / n / (lo, hi) with open bounds / malformed, "
+        "connected with matching shapes (sizes at both bounds of the ranges) or with one mismatch class: "
+        "empty or non-empty group for a single input, single input for a group, size just outside the "
+        "bounds, missing / extra input name. A case is "
         "distinct by its (lines, trace) hash and non-trivial if at least one connection was made")
 ASSUMPTIONS = [
     "constants that compare equal but differ in type (1 / True / 1.0) are not mixed: Const() shares one "
@@ -95,17 +99,87 @@ BAD_OTHER = ['dup_block_name', 'reserved_block_name', 'empty_block_name', 'conne
 BAD_ALL = sorted(BAD_REFS) + BAD_OTHER
 
 
-def _gen_connect(rng, st, cls, bad=None):
+def _gen_esig(rng):
+    """expected signature of a custom block: {input name: None | n | (lo, hi) | malformed}"""
+    keys = rng.sample(['_', 'a', 'b', 'g', 'src'], rng.choice([0, 1, 1, 2, 2, 3]))
+    esig = []
+    for k in keys:
+        q = rng.random()
+        if q < 0.35:
+            spec = None
+        elif q < 0.6:
+            spec = rng.choice([0, 1, 1, 2, 3])
+        elif q < 0.95:
+            lo = rng.choice([None, 0, 1, 2])
+            hi = rng.choice([None, 0, 1, 2, 3])
+            if lo is not None and hi is not None and hi < lo and rng.random() < 0.8:
+                lo, hi = hi, lo
+            spec = [lo, hi]
+        else:
+            spec = 'bad'
+        esig.append([k, spec])
+    return esig
+
+
+def _sig_connect(rng, ref, esig):
+    """inputs for a block expecting `esig`: mostly matching, sizes at the bounds of the ranges,
+    otherwise one of the mismatch classes (empty / non-empty group for a single input, single input
+    for a group, size just outside the bounds, missing / extra input name)"""
+    pos, named = [], []
+    for k, spec in esig:
+        match = rng.random() < 0.72
+        if spec is None:
+            size = None if match else rng.choice([0, 0, 1, 2])
+        elif spec == 'bad':
+            size = rng.choice([None, 0, 1, 2])
+        elif isinstance(spec, int):
+            size = spec if match else rng.choice([None, spec + 1, max(spec - 1, 0), 0])
+        else:
+            lo, hi = spec
+            if match:
+                cands = [x for x in (lo, hi, (lo or 0), (lo or 0) + 1, (hi if hi is not None else (lo or 0) + 2))
+                         if x is not None and x <= 4]
+                size = rng.choice(cands) if cands else 0
+            else:
+                cands = [None]
+                if lo is not None and lo > 0:
+                    cands.append(lo - 1)
+                if hi is not None:
+                    cands.append(hi + 1)
+                size = rng.choice(cands)
+        if k == '_':
+            pos = [ref() for _ in range(1 if size is None else size)]
+        elif size is None:
+            named.append([k, ['single', ref()]])
+        elif size == 2 and rng.random() < 0.2:
+            named.append([k, ['single', ['v', rng.choice(TUPLE_KW[:2])]]])     # a tuple value IS a group
+        else:
+            named.append([k, ['group', [ref() for _ in range(size)]]])
+    q = rng.random()
+    if q < 0.06 and named:
+        named.pop(rng.randrange(len(named)))
+    elif q < 0.12:
+        named.append(['z', rng.choice([['single', ref()], ['group', []]])])
+    if not pos and not named:
+        named.append(['z', ['single', ref()]])
+    return pos, named
+
+
+def _gen_connect(rng, st, cls, bad=None, esig=None):
     def ref():
         return _gen_ref(rng, st)
     pos, named = [], []
+    if cls == 'sig':
+        return _sig_connect(rng, ref, esig)
     if cls == 'not':
         pos = [ref()]
         if bad == 'wrong_signature':
             if rng.random() < 0.5:
                 pos.append(ref())
-            else:
+            elif rng.random() < 0.5:
                 pos, named = [], [['x', ['single', ref()]]]
+            else:
+                pos, named = [], [['x', ['group', []]]]
     elif cls == 'ovr':
         named = [['input', ['single', ref()]], ['override', ['single', ref()]]]
         if rng.random() < 0.5:
@@ -115,7 +189,7 @@ def _gen_connect(rng, st, cls, bad=None):
             if k == 0:
                 named.pop()
             elif k == 1:
-                named[0][1] = ['group', [ref()]]
+                named[rng.randrange(2)][1] = ['group', [ref() for _ in range(rng.choice([0, 0, 1, 2]))]]
             else:
                 pos = [ref()]
     else:
@@ -165,7 +239,8 @@ def gen_scenario(rng, bad=None):
         inv_first.sort(key=len, reverse=True)
         inv_pool = (inv_first[:rng.choice([1, 2, 3])] + inv_pool)[:3]
     st = {'planned': planned, 'created': [], 'inv_pool': inv_pool}
-    classes = {c: rng.choice(['any', 'any', 'any', 'not', 'not', 'ovr']) for c in cnames}
+    classes = {c: rng.choice(['any', 'any', 'not', 'not', 'ovr', 'sig', 'sig']) for c in cnames}
+    esigs = {c: _gen_esig(rng) for c in cnames}
     todo = [('s', n) for n in snames] + [('c', n) for n in cnames]
     rng.shuffle(todo)
     pending_connect = []
@@ -204,7 +279,7 @@ def gen_scenario(rng, bad=None):
             if k == 's':
                 ops.append(['s', n])
             else:
-                ops.append(['c', classes[n], n])
+                ops.append(['c', classes[n], n] + ([esigs[n]] if classes[n] == 'sig' else []))
                 pending_connect.append(n)
             st['created'].append(n)
         else:
@@ -212,7 +287,7 @@ def gen_scenario(rng, bad=None):
             if bad == 'unconnected' and n == bad_cb:
                 continue
             pos, named = _gen_connect(rng, st, classes[n],
-                                      bad if (bad == 'wrong_signature' and n == bad_cb) else None)
+                                      bad if (bad == 'wrong_signature' and n == bad_cb) else None, esigs[n])
             if bad in BAD_REFS and (n == bad_cb or rng.random() < 0.15):
                 b = BAD_REFS[bad](rng, st)
                 where = rng.random()
@@ -236,7 +311,7 @@ def gen_scenario(rng, bad=None):
                     ops.append(['connect', n, pos + [['v', rng.choice(TUPLE_KW[:3])]], named])
             ops.append(['connect', n, pos, named])
             if n == bad_cb and bad == 'connect_twice':
-                p2, n2 = _gen_connect(rng, st, classes[n])
+                p2, n2 = _gen_connect(rng, st, classes[n], None, esigs[n])
                 ops.append(['connect', n, p2, n2])
         maybe_slot()
         if bad == 'dup_block_name' and st['created'] and rng.random() < 0.3:
@@ -318,7 +393,43 @@ def _anyfunc(*_a, **_k):
     return None
 
 
-def _mk_block(kind, name):
+class SigBlock(edzed.CBlock):
+    """a custom block whose start() checks the connected inputs against an expected signature"""
+
+    def __init__(self, *args, esig, **kwargs):
+        self._esig = esig
+        super().__init__(*args, **kwargs)
+
+    def calc_output(self):
+        return None
+
+    def start(self):
+        super().start()
+        self.check_signature(self._esig)
+
+
+def _py_esig(esig):
+    out = {}
+    for k, spec in esig:
+        out[k] = (1, 2, 3) if spec == 'bad' else tuple(spec) if isinstance(spec, list) else spec
+    return out
+
+
+def _esig_line(esig):
+    def one(spec):
+        if spec is None:
+            return 'n'
+        if spec == 'bad':
+            return 'bad'
+        if isinstance(spec, list):
+            return '~'.join('n' if x is None else str(x) for x in spec)
+        return str(spec)
+    return ';'.join(f'{k}={one(spec)}' for k, spec in esig) or '-'
+
+
+def _mk_block(kind, name, esig=None):
+    if kind == 'sig':
+        return SigBlock(name, esig=_py_esig(esig))
     if kind == 's':
         return edzed.Input(name, initdef=0)
     if kind == 'not':
@@ -337,6 +448,8 @@ def _kind_str(blk):
         return 'Covr'
     if isinstance(blk, edzed.FuncBlock):
         return 'Cany'
+    if isinstance(blk, SigBlock):
+        return 'Csig'
     return '?'
 
 
@@ -517,12 +630,14 @@ class _Run:
         kind = op[0]
         if kind in ('s', 'c'):
             cls, name = ('s', op[1]) if kind == 's' else (op[1], op[2])
-            line = f'sblock .{name}' if kind == 's' else f'cblock {cls} .{name}'
+            esig = op[3] if cls == 'sig' else None
+            line = (f'sblock .{name}' if kind == 's' else
+                    f'cblock sig:{_esig_line(esig)} .{name}' if cls == 'sig' else f'cblock {cls} .{name}')
             try:
-                blk = _mk_block(cls, name)
+                blk = _mk_block(cls, name, esig)
                 self.blocks[name] = blk
                 self.emit(line, 'ok')
-                self.steps.append(['add', name, 'ok'])
+                self.steps.append(['add', name, 'ok', cls, esig])
             except Exception as err:
                 self.emit(line, 'err ' + err_kind(err))
                 self.steps.append(['add', name, 'err'])
@@ -657,6 +772,9 @@ def run_impl(scn):
     ninv = sum(1 for b in run.circuit.getblocks() if b.name.startswith('_not_'))
     tags.append(f'inverters={ninv}')
     specs = {b: {'pos': p, 'named': n} for b, (p, n) in run.specs.items()}
+    for st in run.steps:
+        if st[0] == 'add' and st[2] == 'ok' and st[3] in ('not', 'ovr', 'sig'):
+            tags += [f'shape={c}' for c in set(_shape_cases(st[3], st[4], specs.get(st[1])))]
     res = {'lines': run.lines, 'trace': run.trace, 'tags': tags, 'nontrivial': nconn > 0,
            'steps': run.steps, 'snaps': run.snaps, 'specs': specs,
            'created': {n: id(b) for n, b in run.blocks.items()}}
@@ -665,6 +783,54 @@ def run_impl(scn):
 
 
 # ---------------------------------------------------------------- independent oracle
+
+MISMATCH = {'unconnected', 'keys_differ', 'empty_group_for_single', 'group_for_single', 'single_for_group',
+            'size_differs', 'below_minimum', 'above_maximum', 'malformed_expectation'}
+
+
+def _shape_cases(cls, esig, spec):
+    """documented rule of check_signature applied to what was connected: labels of the cases met;
+    the block must refuse to start iff a label is in MISMATCH"""
+    if cls == 'not':
+        esig = [['_', 1]]
+    elif cls == 'ovr':
+        esig = [['input', None], ['override', None]]
+    elif cls != 'sig':
+        return []
+    if spec is None:
+        return ['unconnected']
+    shape = {}
+    for k, e in _expected_norm(spec['pos'], spec['named']):
+        is_group = isinstance(e, list) and (e == [] or isinstance(e[0], list))
+        shape[k] = len(e) if is_group else None
+    if set(shape) != {k for k, _ in esig}:
+        return ['keys_differ']
+    out = []
+    for k, want in esig:
+        size = shape[k]
+        if want is None:
+            out.append('single_ok' if size is None else
+                       'empty_group_for_single' if size == 0 else 'group_for_single')
+        elif size is None:
+            out.append('single_for_group')
+        elif want == 'bad':
+            out.append('malformed_expectation')
+        elif isinstance(want, int):
+            out.append('size_ok' if size == want else 'size_differs')
+        else:
+            lo, hi = want
+            if lo is not None and size < lo:
+                out.append('below_minimum')
+            elif hi is not None and size > hi:
+                out.append('above_maximum')
+            elif size == lo:
+                out.append('at_minimum')
+            elif size == hi:
+                out.append('at_maximum')
+            else:
+                out.append('inside_range')
+    return out
+
 
 def _expected_norm(pos, named):
     """connect() arguments -> expected structure {input name: ref | [refs]} per docs/blocks.rst"""
@@ -717,6 +883,7 @@ def oracle(scn, res):
     finalized = False
     dead = False
     nslots = 0
+    late_slot = False      # an Event / filter created after the finalisation (may need a block that cannot be added)
     pre_slots = 0          # slots created before the successful finalisation
     names = set()
     connected = set()
@@ -751,6 +918,8 @@ def oracle(scn, res):
                 nslots += 1
                 if not finalized:
                     pre_slots = nslots
+                else:
+                    late_slot = True
         elif k == 'finalize':
             if st[1] == 'ok':
                 finalized = True
@@ -760,6 +929,39 @@ def oracle(scn, res):
             dead = True
             if st[1] == 'ok':
                 finalized = True
+            # wrongly shaped / missing inputs must make the start fail -- and nothing else may
+            wrong = []
+            for a in steps:
+                if a[0] == 'add' and a[2] == 'ok' and a[1] in names:
+                    cases = [c for c in _shape_cases(a[3], a[4], specs.get(a[1])) if c in MISMATCH]
+                    if cases:
+                        wrong.append((a[1], a[3], cases))
+            if wrong and st[1] == 'ok':
+                bad('bad_refs_fail', f'the simulation started although the inputs of {wrong[0][0]} '
+                    f'({wrong[0][1]}) do not have the expected shape: {wrong[0][2]}', shape=wrong[0][2][0])
+            snames = {a[1] for a in steps if a[0] == 'add' and a[2] == 'ok' and a[3] == 's'}
+
+            def name_ok(n, need_s=False):
+                if n in names:
+                    return n in snames or not need_s
+                if n == '_ctrl':
+                    return True
+                return (not need_s and n.startswith('_not_') and n[5:] in names and not n[5:].startswith('_'))
+
+            refs_ok = True
+            for sp in specs.values():
+                for _k, e in _expected_norm(sp['pos'], sp['named']):
+                    for r in (e if (isinstance(e, list) and (e == [] or isinstance(e[0], list))) else [e]):
+                        if r[0] == 'n':
+                            refs_ok = refs_ok and name_ok(r[1])
+                        elif r[0] == 'x' or (r[0] == 'v' and r[1] == UNDEF_TAG):
+                            refs_ok = False
+            for a in steps:
+                if a[0] == 'slot' and a[3] == 'ok' and a[2][0] == 'n':
+                    refs_ok = refs_ok and name_ok(a[2][1], a[1] in ('event', 'ifnotinit'))
+            if not wrong and st[1] != 'ok' and refs_ok and not late_slot and names:
+                bad('valid_construction_accepted', 'the start failed although every reference is valid and '
+                    'every input has the expected shape')
         elif k == 'dump':
             snap = snaps[st[1]]
             if snap['finalized'] != finalized and not dead:
